@@ -706,6 +706,9 @@ fn recheck(c: &Case) -> Vec<Violation> {
     if c.cfg.get("census").is_some() {
         return crate::props::builder_ops::check_case(c);
     }
+    if c.cfg.get("block_type_census").is_some() {
+        return crate::props::builder_ops::check_block_type_case(c);
+    }
     if c.cfg.get("locals_census").is_some() {
         return crate::props::builder_ops::check_locals_case(c);
     }
@@ -767,6 +770,13 @@ pub fn run(args: &Args) -> i32 {
         ev.transitions += 1;
         viol.extend(crate::props::builder_ops::check_case(c));
     }
+    let bc = crate::props::builder_ops::block_type_cases();
+    for c in &bc {
+        ev.evaluations += 1;
+        ev.transitions += 1;
+        viol.extend(crate::props::builder_ops::check_block_type_case(c));
+    }
+    ev.extra.insert("builder_block_type_census".into(), json!({"cases": bc.len()}));
     let lc = crate::props::builder_ops::locals_cases();
     for c in &lc {
         ev.evaluations += 1;
@@ -780,7 +790,7 @@ pub fn run(args: &Args) -> i32 {
         "every history of at most {} builder actions (append/insert-at-every-instruction-position of 5 stack-neutral units + br/br_if to every enclosing sequence; block/loop/if_else through the \
          closure API with empty or filled closures; dangling sequence created and attached later at any position as block or loop), nesting <= {}, replayed on the real FunctionBuilder and on a \
          reference tree; the oracle runs in every state (every prefix); plus every history of exactly {} actions that uses the append API only. plus the builder operand census: every entity-naming instruction of the builder API x every assignment of its operands over two entities per index space x two creation orders, emitted and decoded, \
-         the immediates must denote the entities given; and the local-type census: every sequence of <= 3 locals over the 7 value types (x 0/2 parameters), each written and read with its own type, must validate with one slot per local. states = histories; non-trivial = distinct reference flattenings reached",
+         the immediates must denote the entities given; the block-type census (every (params, results) over four small type lists x block / loop / if-else through `InstrSeqType::new`: the emitted signature must be exactly that); and the local-type census: every sequence of <= 3 locals over the 7 value types (x 0/2 parameters), each written and read with its own type, must validate with one slot per local. states = histories; non-trivial = distinct reference flattenings reached",
         depth, nest, append_depth
     );
     ev.bounds = json!({"actions": depth, "nesting": nest});
